@@ -115,6 +115,16 @@ Theorem gen_correct_partial_loops cf o lv st je jst x e body hasie ie fuel text 
   sim_step cf o lv st je jst (SFor x e body hasie ie) fuel text env' old.
 Proof. apply gen_correct_partial_stmt. Qed.
 
+(* {for $x in range(..)}: the Go renderer builds the list range() returns and loops over it as over any list; the
+   JavaScript declares xInit_n / xStep_n, computes xLimit_n = Math.max(0, Math.ceil((limit - xInit_n) / xStep_n)) and binds
+   x_n = xInit_n + xIndex_n * xStep_n each time round (a positive step; limit - init within 2^53) *)
+Theorem gen_correct_partial_for_range cf o lv st je jst x a1 rest body hasie ie fuel text env' old :
+  c_oblig cf = [] -> (sdepth (SForRange x a1 rest body hasie ie) < fuel)%nat -> sim cf st je jst old ->
+  swf lv (SForRange x a1 rest body hasie ie) = true -> lvok lv (j_scope jst) ->
+  sout (c_ij cf) (mode st) go_print_text (sc_lookup (ctx st)) (SForRange x a1 rest body hasie ie) = Some (text, env') ->
+  sim_step cf o lv st je jst (SForRange x a1 rest body hasie ie) fuel text env' old.
+Proof. apply gen_correct_partial_stmt. Qed.
+
 (* the general statement with sim and sim_step unfolded, for a renderer that writes to its output (no capture
    buffer, no budget), as stated in Properties/C04.v *)
 Theorem gen_correct_partial_stmt_unfolded : forall cf o lv st je jst s fuel text env' old,
